@@ -79,7 +79,8 @@ def main(argv):
         dom = domain_of(prop)
         C.build_harness()
         if a.replay:
-            return dom.replay(prop, a.replay)
+            from . import replay
+            return replay.replay(prop, a.replay)
         results = dom.check(prop, tier, seed)
     except C.ToolError as e:
         print("TOOL-ERROR property=%s %s" % (prop, str(e)[:6000]), file=sys.stderr)
